@@ -8,8 +8,8 @@
    value, the type assertion that separates non-fatal from fatal inner errors, and for
    ParseCertificates the two loops over a concatenation.
 
-   The model is that of the tree with pending_fixes/C11-1 applied.  The one place where the
-   unpatched code differs is [retry_input] (what the lax retry is handed): the identity in
+   The model is that of the tree after fix commit 35496df.  The one place where the
+   code before it differs is [retry_input] (what the lax retry is handed): the identity in
    the patched code, the empty input in the unpatched code (ParseCertificates overwrote
    asn1Data with the nil rest of the failed strict attempt) - see Findings/C11Prefix.v. *)
 From Coq Require Import List Bool NArith String.
